@@ -105,6 +105,39 @@ impl Check for C14 {
         Scn { case, form, gc, tape: Tape::random(rng, 8), fuel: 400_000 }
     }
 
+    fn generate_stream(&self, stream: &str, rng: &mut Rng, idx: usize, tier: Tier) -> Scn {
+        if stream != "corpus" {
+            return self.generate(rng, idx, tier);
+        }
+        // author-written snippets without deliberate global effects, block-wrapped, repeated on one interpreter
+        let c = crate::corpus::corpus();
+        let list: Vec<&crate::corpus::Entry> = c.snippets.iter().filter(|e| e.self_contained()).collect();
+        let e = list[idx % list.len().max(1)];
+        // inside-run form: the snippet is the body of a loop with a host hole per iteration.
+        // KF-C14-3 / KF-C14-4 (open) quarantine: no break/continue, no generators.
+        let quarantined = ["break", "continue", "function*", "function *", "yield", "*[", "* ["].iter().any(|w| e.src.contains(w));
+        if !quarantined && rng.chance(0.5) {
+            let iterations = 8 + rng.below(5) as u32;
+            let mut case = e.to_case();
+            let body: Vec<Node> = case.tree.kids.split_off(3);
+            case.tree.kids[0] = Node::leaf("import { order as __h } from \"tsrun:host\";");
+            case.tree.kids.push(Node::block(
+                format!("for (let __it = 0; __it < {}; __it++) {{", iterations),
+                vec![Node::block("{", body, "}"), Node::leaf("await __h(7000 + __it);")],
+                "}",
+            ));
+            case.tree.kids.push(Node::leaf("\"looped\""));
+            case.variant = HoleVariant::OrderDirect;
+            for i in 0..iterations + 1 {
+                case.answers.insert(format!("{}", 7000 + i), Answer::Value(json!(i)));
+            }
+            let gc = GcSched { force_at_suspend: true, ..GcSched::threshold(*rng.pick(&[0u32, 1, 3, 100])) };
+            return Scn { case, form: Form::InsideRun { iterations }, gc, tape: Tape::random(rng, 8), fuel: 600_000 };
+        }
+        let gc = if rng.chance(0.5) { GcSched::off() } else { random_gc(rng) };
+        Scn { case: e.to_case(), form: Form::AcrossRuns { reps: 6 + rng.below(7) as u32 }, gc, tape: Tape::random(rng, 8), fuel: 400_000 }
+    }
+
     fn shrink(&self, scn: &Scn) -> Vec<Scn> {
         let mut out = Vec::new();
         if !scn.gc.is_off() && matches!(scn.form, Form::AcrossRuns { .. }) {
@@ -171,7 +204,7 @@ impl Check for C14 {
             rep.bump(&format!("tag_{}", t), 1);
         }
         rep.nontrivial = lives.len() >= 6 && c.allocs > 0 && !syntax;
-        rep.trace_hash = crate::rng::hash_str(&format!("{:?}|{:?}|{:?}", results, scn.form, lives.len()));
+        rep.trace_hash = crate::rng::hash_str(&format!("{:?}|{:?}|{:?}|{:x}", results, scn.form, lives.len(), crate::rng::hash_str(&scn.case.source())));
         rep
     }
 }
